@@ -633,8 +633,8 @@ func nearTwinDefaultCase(i int) *sem.Case {
 		{Name: "serverTls", S: second}}}
 	c := &sem.Case{Root: root, Sig: fmt.Sprintf("near-twin-default/%d/%v", v, swap), NoAuto: true}
 	for _, o := range []jsonx.Obj{{}, {{K: "mode", V: "ab"}}, {{K: "port", V: jsonx.N(1)}}, {{K: "mode", V: "ab"}, {K: "port", V: jsonx.N(2)}}, {{K: "mode", V: nil}}, {{K: "mode", V: "a"}}} {
-		c.Docs = append(c.Docs, docgen.Doc{V: jsonx.Obj{{K: "server", V: jsonx.Obj{{K: "tls", V: o}}}}, Class: "default", Label: "nested-twin"},
-			docgen.Doc{V: jsonx.Obj{{K: "serverTls", V: o}}, Class: "default", Label: "sibling-twin"})
+		c.Docs = append(c.Docs, docgen.Doc{V: jsonx.Obj{{K: "server", V: jsonx.Obj{{K: "tls", V: o}}}}, Class: "twin", Label: "nested-twin"},
+			docgen.Doc{V: jsonx.Obj{{K: "serverTls", V: o}}, Class: "twin", Label: "sibling-twin"})
 	}
 	return c
 }
@@ -687,7 +687,8 @@ func nestedCompositionArrayCase(i int) *sem.Case {
 	inner := &sg.Schema{Types: []string{"array"}, Items: &sg.Schema{Types: []string{"integer"}}, MinItems: 1, MaxItems: 2}
 	own := &sg.Schema{Types: []string{"object"}, Props: []sg.Prop{{Name: "tags", S: &sg.Schema{Types: []string{"array"}, Items: &sg.Schema{Types: []string{"string"}}, MinItems: 1, MaxItems: 3}},
 		{Name: "matrix", S: &sg.Schema{Types: []string{"array"}, Items: inner, MinItems: 1, MaxItems: 2}}}}
-	profile := &sg.Schema{AllOf: []*sg.Schema{own, refA()}}
+	// (typed compositions: a type-less composition behind a $ref is the recorded finding untyped-composition-definition)
+	profile := &sg.Schema{Types: []string{"object"}, AllOf: []*sg.Schema{own, refA()}}
 	names := [][2]string{{"Account", "Profile"}, {"Zaccount", "Profile"}, {"Account", "Profile"}}[i%3]
 	var profProp *sg.Schema
 	root := &sg.Schema{Types: []string{"object"}, Defs: []sg.Prop{{Name: "Audited", S: audited}}}
@@ -697,7 +698,7 @@ func nestedCompositionArrayCase(i int) *sem.Case {
 		root.Defs = append(root.Defs, sg.Prop{Name: names[1], S: profile})
 		profProp = &sg.Schema{Ref: "#/$defs/" + names[1], Target: profile}
 	}
-	account := &sg.Schema{AllOf: []*sg.Schema{{Types: []string{"object"}, Props: []sg.Prop{{Name: "profile", S: profProp}, {Name: "login", S: &sg.Schema{Types: []string{"string"}}}}}, refA()}}
+	account := &sg.Schema{Types: []string{"object"}, AllOf: []*sg.Schema{{Types: []string{"object"}, Props: []sg.Prop{{Name: "profile", S: profProp}, {Name: "login", S: &sg.Schema{Types: []string{"string"}}}}}, refA()}}
 	root.Defs = append(root.Defs, sg.Prop{Name: names[0], S: account})
 	root.Props = []sg.Prop{{Name: "account", S: &sg.Schema{Ref: "#/$defs/" + names[0], Target: account}}}
 	c := &sem.Case{Root: root, Sig: fmt.Sprintf("nested-composition-array/%d", i%3), NoAuto: true}
